@@ -46,6 +46,20 @@ func verifC08Check(b []byte) {
 	verifAssert(!verifShares(p, b), "decoded-packet-shares-no-memory-with-the-source-buffer")
 	s0 := append([]byte(nil), p.ToBytes()...)
 	verifObserveInt("len", len(s0))
+	// every field owns its memory: appending to one of them (which writes into whatever spare
+	// capacity the decoder left on it) changes no other field
+	for _, k := range []int{1, 4, 16} { // an append longer than the spare capacity reallocates and writes nothing in place
+		filler := []byte{0xa5, 0xa5, 0xa5, 0xa5, 0xa5, 0xa5, 0xa5, 0xa5, 0xa5, 0xa5, 0xa5, 0xa5, 0xa5, 0xa5, 0xa5, 0xa5}[:k]
+		_ = append(p.ClientIPAddr, filler...)
+		_ = append(p.YourIPAddr, filler...)
+		_ = append(p.ServerIPAddr, filler...)
+		_ = append(p.GatewayIPAddr, filler...)
+		_ = append(p.ClientHWAddr, filler...)
+		for _, v := range p.Options {
+			_ = append(v, filler...)
+		}
+	}
+	verifAssert(verifSame(p.ToBytes(), s0), "appending-to-a-decoded-field-changes-no-other-field")
 	verifHavoc("scribble-in", b)
 	s1 := p.ToBytes()
 	verifAssert(verifSame(s1, s0), "overwriting-the-source-buffer-changes-nothing")
